@@ -258,6 +258,24 @@ def apply_conn_opts(conn, opts, side):
         v = opts.get("msd_%s_%s" % (which, side))
         if v is not None:
             setattr(conn, "_local_max_stream_data_" + which, v)
+    # transport parameters another stack could advertise but aioquic hard-codes (advertise_<side> = {field: value}, e.g.
+    # max_ack_delay in ms, ack_delay_exponent): the endpoint's own behaviour is unchanged, only what it tells its peer
+    adv = opts.get("advertise_" + side)
+    if adv:
+        from aioquic.buffer import Buffer
+        from aioquic.quic.packet import pull_quic_transport_parameters, push_quic_transport_parameters
+
+        orig = conn._serialize_transport_parameters
+
+        def serialize(_orig=orig, _adv=dict(adv)):
+            params = pull_quic_transport_parameters(Buffer(data=_orig()))
+            for k, v in _adv.items():
+                setattr(params, k, v)
+            buf = Buffer(capacity=2048)
+            push_quic_transport_parameters(buf, params)
+            return buf.data
+
+        conn._serialize_transport_parameters = serialize
 
 
 class Fates:
@@ -939,7 +957,9 @@ def _sim_forged(self, victim, op):
     # the packet takes the peer's next packet number, which is then reserved (written to hooked state) so that the
     # genuine peer never reuses it: as far as numbering goes the peer has sent one more packet
     pn = peer.conn._packet_number + int(op.get("pn_gap", 0))  # pn_gap: packet numbers the peer "skipped" (or whose packets were lost)
-    peer.conn._packet_number = pn + 1
+    if not op.get("pn_no_reserve"):
+        peer.conn._packet_number = pn + 1
+    # (pn_no_reserve: an attacker's packet far ahead in a long-header space, which the genuine peer never reaches there)
     payload = bytes.fromhex(op["frames_hex"])
     if len(payload) < 3:
         payload += bytes(3 - len(payload))
@@ -949,11 +969,12 @@ def _sim_forged(self, victim, op):
         hdr = bytes([0x40 | (ctx.key_phase << 2) | 1]) + dcid
     else:
         scid = bytes(peer.conn.host_cid)
-        if op.get("pad_to"):
-            payload += bytes(max(0, op["pad_to"] - len(payload) - 60))
         hdr = bytes([0xC0 | (TYPE_CODE[version][ptype] << 4) | 1]) + version.to_bytes(4, "big") + bytes([len(dcid)]) + dcid + bytes([len(scid)]) + scid
         if ptype == "initial":
             hdr += F.enc_varint(0)
+        if op.get("pad_to"):
+            # PADDING frames up to a datagram of exactly pad_to bytes (header + 2-byte length + 2-byte packet number + payload + tag)
+            payload += bytes(max(0, op["pad_to"] - len(hdr) - 2 - 2 - 16 - len(payload)))
         hdr += F.enc_varint(2 + len(payload) + 16, 2)
     return rc.protect(keys, hdr, pn, 2, payload)
 
